@@ -32,7 +32,8 @@ LEVEL_TEXT = ("Exploration: all (tree, new root) pairs of small generated trees 
               " First trees derived by the library (also float64); size sweep, re-rooting / concatenating trees of 5*10^4 nodes and more."
               " redirect_tree called positionally, by keyword and with defaults."
               " The C03 contract set is active during the workload: results of the two preceding calls are re-verified after every call."
-              " Twins under custom column names; a 64-bit label column.")
+              " Twins under custom column names; a 64-bit label column."
+              " Fragments hundredths of a micrometre from their attachment node at whole-brain coordinates (merge decided exactly); returned trees overwritten in place, then the same call again.")
 LEVEL_NOTE = ("Merge-or-link is decided only where the junction distance is clearly below (<5e-6) or "
               "above (>2e-5) the documented 1e-5; with translation requested and coordinates large "
               "enough for float32 residue to reach 1e-5 either outcome is accepted and counted.")
